@@ -189,7 +189,7 @@ func run(c Case) (v vkit.Verdict) {
 			// 0.1 mm on the ground: a longitude difference counts with cos(lat)
 			dx = math.Abs(math.Mod(gx-c.JS[0]+540, 360)-180) * math.Max(math.Cos(gy*math.Pi/180), 1e-3)
 		}
-		if dx > tol || dy > tol {
+		if !(dx <= tol) || !(dy <= tol) { // NaN-safe
 			return v.Fail("Go (%.6f, %.6f) vs proj4js (%.6f, %.6f): differ by (%.3g, %.3g) > %.3g for input (%v, %v) [%s -> %s]", gx, gy, c.JS[0], c.JS[1], dx, dy, tol, c.X, c.Y, c.Src, c.Dst)
 		}
 	case "ref":
@@ -221,7 +221,7 @@ func run(c Case) (v vkit.Verdict) {
 		if c.Dst.K0 > 1 {
 			tol *= c.Dst.K0 // 5 mm on the ground: the scale factor multiplies every ground error
 		}
-		if math.Abs(gx-rx) > tol || math.Abs(gy-ry) > tol {
+		if vkit.Off(gx-rx, tol) || vkit.Off(gy-ry, tol) {
 			return v.Fail("Go (%.5f, %.5f) vs reference formulas (%.5f, %.5f): differ by (%.3g, %.3g) > %.3g units for (%v, %v) [%s -> %s]", gx, gy, rx, ry, math.Abs(gx-rx), math.Abs(gy-ry), tol, c.X, c.Y, c.Src, c.Dst)
 		}
 	}
